@@ -104,6 +104,11 @@ def run_case(case):
                 entry["queues"] = net.drain_queues()
             elif k == "check":
                 box = net.call(key(i), lambda node: node.check_connection(2, bool(op[2])), 30000)
+            if k in ("lookup_addr", "lookup_id", "check"):
+                net.settle(1500)
+                entry["table_after_lookup"] = dict(master.dhcp_dict)
+            if False:
+                pass
             elif k == "release":
                 box = net.call(key(i), lambda node: node.release_address(), 20000)
                 net.settle(2000)
@@ -114,6 +119,27 @@ def run_case(case):
                 net.settle(2000)
                 entry["table_after"] = dict(master.dhcp_dict)
                 entry["addr_after"] = ctl.node.node_address
+            elif k == "pair_lookup":
+                # a relay and its child look two different IDs up almost at the same moment (stagger in us;
+                # negative: the relay asks first)
+                pairs = [(j, c) for j in ids for c in ids if j != c and j not in dead and c not in dead
+                         and addr_of[j] != 0o4444 and addr_of[c] != 0o4444 and netaddr.parent(addr_of[c]) == addr_of[j]]
+                if not pairs:
+                    continue
+                rel, ch = pairs[op[1] % len(pairs)]
+                others = [x for x in ids if x in table]
+                t_rel, t_ch = others[op[1] % len(others)], others[(op[1] + 1) % len(others)]
+                first, second = ((ch, t_ch), (rel, t_rel)) if op[2] >= 0 else ((rel, t_rel), (ch, t_ch))
+                b1 = net.post(key(first[0]), lambda node, t=first[1]: node.lookup_address(t))
+                net.sim.advance(abs(op[2]) * 1000)
+                b2 = net.post(key(second[0]), lambda node, t=second[1]: node.lookup_address(t))
+                net.wait(lambda: b1["done"] and b2["done"], 30000)
+                net.settle(1500)
+                entry["pair"] = [(first[0], first[1], b1.get("result"), table.get(first[1])), (second[0], second[1], b2.get("result"), table.get(second[1]))]
+                entry["box"] = {"done": b1["done"] and b2["done"], "result": None}
+                entry["table_after_lookup"] = dict(master.dhcp_dict)
+                info["script"].append(entry)
+                continue
             elif k == "kill":
                 # power loss: the node stops running and its radio goes silent
                 power_loss(net, key(i))
@@ -129,14 +155,23 @@ def run_case(case):
                 break
         # ---- phase 3: everybody looks an ID up at the same moment
         alive = [i for i in ids if i not in dead and net.ctl[key(i)].node.node_address != 0o4444]
+        info["phase3"] = {}
         if case.get("concurrent") and len(alive) >= 2 and not lossy:
             table = dict(master.dhcp_dict)
-            boxes3 = {}
-            for n, i in enumerate(alive):
-                tgt = alive[(n + 1) % len(alive)]
-                boxes3[i] = (tgt, net.post(key(i), lambda node, tgt=tgt: node.lookup_address(tgt)))
-            net.wait(lambda: all(b["done"] for _t, b in boxes3.values()), 30000)
-            info["phase3"] = {i: (t, b.get("result"), b.get("exc"), b["done"], table.get(t)) for i, (t, b) in boxes3.items()}
+            for rnd, stagger in enumerate(case.get("staggers", [0])):
+                boxes3 = {}
+                for n, i in enumerate(alive):
+                    tgt = alive[(n + 1 + rnd) % len(alive)]
+                    boxes3[i] = (tgt, net.post(key(i), lambda node, tgt=tgt: node.lookup_address(tgt)))
+                    if stagger:
+                        net.sim.advance(stagger * 1000)
+                net.wait(lambda: all(b["done"] for _t, b in boxes3.values()), 30000)
+                net.settle(1500)
+                for i, (t, b) in boxes3.items():
+                    info["phase3"][(rnd, i)] = (t, b.get("result"), b.get("exc"), b["done"], table.get(t))
+            info["table3"] = dict(master.dhcp_dict)
+            if info["table3"] != table:
+                info["phase3_disturbed"] = (table, info["table3"])
         net.settle(2000)
         info["master_exc"] = net.ctl["m"].exc
 
@@ -179,6 +214,9 @@ def run_case(case):
             res.nontrivial = True
             res.label("joined-through-relay")
     if not lossy:
+        foreign = sorted(set(info.get("table1", {})) - set(ids))
+        if foreign:
+            res.fail("C17/table-foreign-entry", "the master's table holds IDs %s which never asked (nodes: %s)" % (foreign, sorted(ids)))
         vals = list(joined.values())
         if len(set(vals)) != len(vals):
             dup = [a for a in set(vals) if vals.count(a) > 1][0]
@@ -201,6 +239,9 @@ def run_case(case):
             continue
         r = box.get("result")
         table, my = e["table"], e["addr"]
+        if "table_after_lookup" in e and e["table_after_lookup"] != table:
+            res.fail("C17/asking-disturbs-the-master", "the master's table changed from %r to %r over %s by ID %d" % (
+                sorted(table.items()), sorted(e["table_after_lookup"].items()), k, i))
         # a node is reachable only through nodes that are running AND still hold the address it joined under:
         # a parent that released or re-joined elsewhere orphans its children
         present = {0} | {a for j, a in e["addr_of"].items() if a != 0o4444 and j not in e["dead"]}
@@ -210,7 +251,14 @@ def run_case(case):
 
         parent_dead = my != 0o4444 and netaddr.parent(my) not in present
         route_dead = my != 0o4444 and not route_ok(my, 0)
-        if k == "lookup_addr":
+        if k == "pair_lookup":
+            res.nontrivial = True
+            res.label("relay-child-concurrent-lookup")
+            for who, tgt, got, exp in e["pair"]:
+                if got != -1 and got != exp:
+                    res.fail("C17/concurrent-lookup-wrong-answer", "ID %d asked for ID %d and got %r, the table says %r (relay and child "
+                             "asking %d us apart)" % (who, tgt, got, exp, op[2]))
+        elif k == "lookup_addr":
             arg = op[2]
             if not arg:
                 exp = 0
@@ -292,7 +340,10 @@ def run_case(case):
                         i, r, [j for j, a in others.items() if a == r][0]))
                 if e["table_after"].get(i) != r:
                     res.fail("C17/table-disagrees-with-node", "ID %d re-joined as 0o%o, table says %r" % (i, r, e["table_after"].get(i)))
-    for i, (tgt, r, exc, done, exp) in info["phase3"].items():
+    if "phase3_disturbed" in info:
+        res.fail("C17/asking-disturbs-the-master", "concurrent lookups changed the master's table from %r to %r" % (
+            sorted(info["phase3_disturbed"][0].items()), sorted(info["phase3_disturbed"][1].items())))
+    for (_rnd, i), (tgt, r, exc, done, exp) in info["phase3"].items():
         if exc is not None:
             res.fail(exc_signature("C17/concurrent-lookup-raises", exc), repr(exc))
         elif not done:
@@ -303,14 +354,14 @@ def run_case(case):
     return res
 
 
-def _strategy():
+def _strategy(max_nodes=12):
     from hypothesis import strategies as st
-    mcu = st.one_of(st.none(), st.fixed_dictionaries({"spi": st.sampled_from([8, 20, 50, 100]), "jit": st.sampled_from([0, 30]),
-                                                      "seed": st.integers(0, 9999), "poll": st.sampled_from([100, 500, 2000])}))
+    mcu = st.fixed_dictionaries({"spi": st.sampled_from([50, 100, 200, 400]), "jit": st.sampled_from([0, 30]),
+                                 "seed": st.integers(0, 9999), "poll": st.sampled_from([100, 500, 2000])})
 
     @st.composite
     def case(draw):
-        n = draw(st.one_of(st.integers(1, 6), st.integers(1, 12)))
+        n = draw(st.one_of(st.integers(2, min(6, max_nodes)), st.integers(1, max_nodes), st.integers(6, max_nodes)))
         ids = draw(st.lists(st.integers(1, 255), min_size=n, max_size=n, unique=True))
         nodes = [{"id": i, "kind": draw(st.sampled_from(["mesh", "meshnm"])), "offset": draw(st.sampled_from([0, 0, 1, 5, 20, 60])),
                   "mcu": draw(mcu)} for i in ids]
@@ -326,15 +377,28 @@ def _strategy():
             st.tuples(st.just("release"), idx), st.tuples(st.just("rejoin"), idx),
             st.tuples(st.just("kill"), idx),
         ).map(list)
-        lossy = draw(st.integers(0, 4)) == 0
+        lossy = draw(st.integers(0, 5)) == 0
         return {"nodes": nodes, "master_mcu": draw(mcu), "script": draw(st.lists(op, max_size=10)), "concurrent": draw(st.booleans()),
+                "staggers": draw(st.lists(st.sampled_from([0, 100, 300, 700, 1500, 3000]), min_size=1, max_size=3)),
                 "loss": draw(st.text(alphabet="DDDDDPA", min_size=2, max_size=15)) if lossy else "D",
                 "timeout": 7.5 if not lossy else 2.0}
 
     return case()
 
 
+def _pair_sweep(step):
+    """six nodes join one after the other (five fill level 1, the sixth joins through a relay); then a relay and its
+    child look IDs up with their requests staggered from -3 ms to +3 ms"""
+    def gen():
+        ids = [11, 22, 33, 44, 55, 66]
+        nodes = [{"id": i, "kind": "mesh", "offset": 400 * n, "mcu": {"spi": 50, "jit": 0, "seed": n, "poll": 100}} for n, i in enumerate(ids)]
+        for st_us in range(-3000, 3001, step):
+            yield {"nodes": nodes, "master_mcu": {"spi": 50, "jit": 0, "seed": 7, "poll": 100}, "script": [["pair_lookup", 0, st_us], ["pair_lookup", 1, st_us]],
+                   "concurrent": False, "loss": "D", "timeout": 7.5}
+    return gen
+
+
 def parts(tier):
     if tier == "quick":
-        return [Part("generated", "gen", _strategy, n=64)]
-    return [Part("generated", "gen", _strategy, n=3000)]
+        return [Part("relay-child-stagger-sweep", "enum", _pair_sweep(200), exhaustive=True), Part("generated", "gen", lambda: _strategy(8), n=96)]
+    return [Part("relay-child-stagger-sweep", "enum", _pair_sweep(25), exhaustive=True), Part("generated", "gen", lambda: _strategy(12), n=3000)]
